@@ -570,8 +570,12 @@ class Gen:
         tb2 = self.ch([t for t in TABLE_POOL if t["name"] != tb.get("name", "?")] or TABLE_POOL)
         scope = [tb]
 
+        mut = {"immutable": False} if (self.k["mutable"] and self.p(0.6)) else {}
+
         def m(x, name, *a, **kw):
             n = {"t": "meth", "x": x, "m": name, "a": list(a)}
+            if x is C and mut and name in ("from_", "update", "into"):
+                kw = dict(kw, **mut)  # mutable-mode builder: every later call of the chain works in place
             if kw:
                 n["kw"] = kw
             return n
@@ -698,7 +702,7 @@ class Gen:
         cls = self.ch(self.k["qcls"])
         C = {"t": "cls", "name": cls}
         kw = {}
-        if self.k["mutable"] and self.p(0.5):
+        if self.k["mutable"] and self.p(0.7):
             kw = {"immutable": False}
         c = self.wch([("from", 6), ("into", 2), ("update", 2), ("select", 0.5), ("with", 0.7), ("tselect", 0.6),
                       ("delete", 1.2), ("tinsert", 0.4), ("tupdate", 0.4), ("bare", 0.3)])
